@@ -157,6 +157,27 @@ def check_case(drv, rng, r, stats):
     # (d) fitted state unchanged by all these transforms
     if state_sig(obj) != sig0:
         fail("transform altered the fitted state (to_json / labels_per_values)")
+    # (c'') read-only observers (summary, history, JSON export) between two transforms of the same frame.  (history() adds a
+    # 'feature' key to the entries of _history, which shows in to_json(): observed, not part of any property; the fitted
+    # mapping - values_orders, labels_per_values - and the transform output are what must not move)
+    map0 = json.dumps([fitgen.state_wire(obj)], sort_keys=True, default=str)
+    with warnings.catch_warnings():
+        warnings.simplefilter("ignore")
+        try:
+            obj.summary()
+            if hasattr(obj, "history"):
+                obj.history()
+            obj.to_json()
+        except Exception:
+            pass
+    _, e4, m4, Xt4 = fitgen.run_transform(obj, X)
+    stats["variants"] += 1
+    if e4 is not None:
+        fail(f"transform of the training frame raised {e4} after summary() / history() / to_json()", error=(m4 or "")[:200])
+    elif cells(Xt4) != fullc:
+        fail("repeated transform differs after summary() / history() / to_json() were called in between")
+    if json.dumps([fitgen.state_wire(obj)], sort_keys=True, default=str) != map0:
+        fail("summary() / history() / to_json() altered the fitted mapping (values_orders / labels_per_values)")
     return fails
 
 
